@@ -7,7 +7,10 @@ import (
 	"bytes"
 	"crypto/sha256"
 	"encoding/hex"
+	"encoding/json"
 	"fmt"
+	"os"
+	"path/filepath"
 	"reflect"
 	"sort"
 	"strconv"
@@ -229,8 +232,8 @@ func bufCallOp(args []string) (string, []string) {
 		if again != nil && again.digest != priv.digest {
 			nondet = true
 		} else {
-			direct = append(direct, fmt.Sprintf("%s: the result depends on the spare capacity / sharing of its arguments (layout %s, spare %d): %s with the caller's slices, %s with private exact-capacity copies",
-				fn.Name, layout, spare, firstDiff(run.digest, priv.digest), ""))
+			direct = append(direct, fmt.Sprintf("%s: the result depends on the spare capacity / sharing of its arguments (layout %s, spare %d): with the caller's slices vs private exact-capacity copies (shown as go/model): %s",
+				fn.Name, layout, spare, firstDiff(run.digest, priv.digest)))
 		}
 	}
 	ans := fmt.Sprintf("ok %s alias=%d panic=%d", bufShort(priv.digest), bufB2i(run.alias), bufB2i(run.panicked || priv.panicked))
@@ -503,6 +506,22 @@ func (r *Runner) bufTuples(fn *bufFuncEntry, limit int) ([][]string, string) {
 		}
 		out = append(out, t)
 	}
+	// random draws: every byte-slice argument replaced by random bytes of a meaningful length (the
+	// length of one of its pool values), so that e.g. fresh private keys and hashes are used
+	for d := 0; d < r.N(3, 20) && len(out) > 0; d++ {
+		base := out[r.rng.Intn(len(out))]
+		t := append([]string(nil), base...)
+		for i := 0; i < ft.NumIn(); i++ {
+			if bufKindOf(ft.In(i)) != bufKBytes || t[i] == "nil" || t[i] == "-" {
+				continue
+			}
+			if r.rng.Intn(3) == 0 {
+				continue // keep a structured value next to the random ones
+			}
+			t[i] = hx(r.bytesN(len(t[i]) / 2))
+		}
+		out = append(out, t)
+	}
 	return out, ""
 }
 
@@ -575,7 +594,7 @@ func init() {
 
 func runC18(r *Runner) string {
 	spares := []int{0, 1, 4, 32, 64}
-	limit := r.N(6, 40)
+	limit := r.N(10, 40)
 	funcs := append([]bufFuncEntry(nil), bufFuncs...)
 	sort.Slice(funcs, func(i, j int) bool { return funcs[i].Name < funcs[j].Name })
 	var uncovered []string
@@ -658,6 +677,7 @@ func runC18(r *Runner) string {
 	if len(bufSkipped) > 0 {
 		r.res.Notes = append(r.res.Notes, "not callable through reflect: "+strings.Join(bufSkipped, ", "))
 	}
+	r.res.Notes = append(r.res.Notes, bufIRNotes()...)
 	al := make([]string, 0, len(bufAllow))
 	for k, v := range bufAllow {
 		al = append(al, k+" ("+v+")")
@@ -722,3 +742,59 @@ func bufMasterOp(args []string) (string, []string) {
 }
 
 func init() { reg("buf.master", GoOnly, bufMasterOp) }
+
+// bufIRNotes: what the extractor recorded about the regenerated IR (build/buffer_ir.json)
+func bufIRNotes() []string {
+	exe := os.Getenv("VERIF_HARNESS")
+	if exe == "" {
+		exe, _ = os.Executable()
+	}
+	data, err := os.ReadFile(filepath.Join(filepath.Dir(exe), "buffer_ir.json"))
+	if err != nil {
+		return []string{"buffer IR notes not available: " + err.Error()}
+	}
+	var j struct {
+		Translated int                                  `json:"functions_translated"`
+		Emitted    int                                  `json:"functions_emitted"`
+		Api        int                                  `json:"api_functions_with_slice_parameters"`
+		StmtsAll   int                                  `json:"statements_translated"`
+		Stmts      int                                  `json:"statements_emitted"`
+		Violations []struct{ Func, What, Where string } `json:"violations"`
+		RetAlias   []struct{ Func, What, Where string } `json:"ret_alias"`
+		Havoc      []struct{ Func, What, Where string } `json:"havoc_reached_by_tracked_memory"`
+		Beyond     []struct{ Func, What, Where string } `json:"read_beyond_len"`
+		Assumed    []struct{ Func, What, Where string } `json:"bound_assumptions"`
+		Unknown    []string                             `json:"external_callees_without_table_entry"`
+	}
+	if json.Unmarshal(data, &j) != nil {
+		return []string{"buffer IR notes unreadable"}
+	}
+	list := func(xs []struct{ Func, What, Where string }) string {
+		seen := map[string]bool{}
+		var out []string
+		for _, x := range xs {
+			k := x.Func + " (" + x.Where + ")"
+			if !seen[k] {
+				seen[k] = true
+				out = append(out, k)
+			}
+		}
+		if len(out) == 0 {
+			return "none"
+		}
+		return strings.Join(out, ", ")
+	}
+	notes := []string{
+		fmt.Sprintf("IR regenerated from SSA on this run: %d functions translated (%d statements), %d functions may receive caller-owned byte-slice memory and are emitted (%d statements after eliding fresh-memory-only statements); %d exported functions with byte-slice parameters",
+			j.Translated, j.StmtsAll, j.Emitted, j.Stmts, j.Api),
+		"IR: results that may alias an argument (retAlias, allowed): " + list(j.RetAlias),
+		"IR: caller-owned memory reaching a callee without body or table entry (havoc): " + list(j.Havoc),
+		"IR: slice expressions bounded by cap() on tracked memory: " + list(j.Beyond),
+		"IR: slice bounds assumed <= len (pinned by bound_assumptions_pinned): " + list(j.Assumed),
+		"IR: external callees without a table entry (havoc whenever they receive memory): " + strings.Join(j.Unknown, ", "),
+	}
+	if len(j.Violations) > 0 {
+		notes = append(notes, "IR: violations found by the extractor's fixpoint: "+list(j.Violations))
+	}
+	return notes
+}
